@@ -9,7 +9,7 @@ PROPS = {
     "C14": {
         "modules": ["Hannibal.Props.C14", "Hannibal.Props.C14Current"],
         "theorems": ["Hannibal.C14_holds", "Hannibal.C14_current", "Hannibal.wellWired14_current"],
-        "cases": {"quick": {"C14": 1200}, "thorough": {"C14": 15000, "C05": 3000, "C02": 3000}},
+        "cases": {"quick": {"C14": 1200}, "thorough": {"C14": 15000, "x:C14": 320, "C05": 3000, "C02": 3000}},
         "assumptions": COMMON_ASSUMPTIONS + [
             "'terminated' = the executor-level end of the actor's task (taskDone / taskPanic / cancel)",
         ],
@@ -17,7 +17,7 @@ PROPS = {
     "C15": {
         "modules": ["Hannibal.Props.C15", "Hannibal.Props.C15Current"],
         "theorems": ["Hannibal.C15_holds", "Hannibal.C15_current", "Hannibal.wellWired15_current"],
-        "cases": {"quick": {"C15": 1200, "C05": 300}, "thorough": {"C15": 15000, "C05": 5000, "C07": 3000}},
+        "cases": {"quick": {"C15": 1200, "C05": 300}, "thorough": {"C15": 15000, "x:C15": 320, "C05": 5000, "C07": 3000}},
         "assumptions": COMMON_ASSUMPTIONS + [
             "interval_with timers: judged by monC15iw on real traces only (not part of the theorem)",
             "'conversions never change which actor is addressed' is structural in the single-actor model (one "
@@ -27,7 +27,7 @@ PROPS = {
     "C03": {
         "modules": ["Hannibal.Props.C03", "Hannibal.Props.C03Current"],
         "theorems": ["Hannibal.C03_holds", "Hannibal.C03_current"],
-        "cases": {"quick": {"C03": 1500}, "thorough": {"C03": 20000, "C13": 3000, "C07": 3000}},
+        "cases": {"quick": {"C03": 1500}, "thorough": {"C03": 20000, "x:C03": 320, "C13": 3000, "C07": 3000}},
         "assumptions": COMMON_ASSUMPTIONS + [
             "graceful-end clause (monC03q: after an accepted stop and absent failures the actor has ended with "
             "stopped() by quiescence) is judged on real traces only",
@@ -36,7 +36,7 @@ PROPS = {
     "C07": {
         "modules": ["Hannibal.Props.C07", "Hannibal.Props.C07Current"],
         "theorems": ["Hannibal.C07_holds", "Hannibal.C07_current", "Hannibal.wellWired07_current"],
-        "cases": {"quick": {"C07": 1500}, "thorough": {"C07": 20000, "C03": 3000}},
+        "cases": {"quick": {"C07": 1500}, "thorough": {"C07": 20000, "x:C07": 320, "C03": 3000}},
         "assumptions": COMMON_ASSUMPTIONS + [
             "order clause (monC07o: a message submitted after k accepted restarts is handled by incarnation k+1) "
             "is judged on real traces only",
@@ -67,7 +67,7 @@ PROPS = {
     "C13": {
         "modules": ["Hannibal.Props.C13", "Hannibal.Props.C13Current"],
         "theorems": ["Hannibal.C13_holds", "Hannibal.C13_current"],
-        "cases": {"quick": {"C13": 1500}, "thorough": {"C13": 20000, "C03": 3000}},
+        "cases": {"quick": {"C13": 1500}, "thorough": {"C13": 20000, "x:C13": 320, "C03": 3000}},
         "assumptions": COMMON_ASSUMPTIONS + [
             "quiescence clauses (monC13q: ends with the stream / on stop / on last drop; every yielded item handled) are judged on real traces only",
             "the loop's random tie-break is exercised by seeds and schedules; the model allows both outcomes",
@@ -76,7 +76,7 @@ PROPS = {
     "C04": {
         "modules": ["Hannibal.Props.C04", "Hannibal.Props.C04Current"],
         "theorems": ["Hannibal.C04_holds", "Hannibal.C04_current", "Hannibal.wellWired04_current"],
-        "cases": {"quick": {"C04": 1500}, "thorough": {"C04": 20000, "C02": 3000, "C17": 3000}},
+        "cases": {"quick": {"C04": 1500}, "thorough": {"C04": 20000, "x:C04": 320, "C02": 3000, "C17": 3000}},
         "assumptions": COMMON_ASSUMPTIONS + [
             "drain-barrier clauses (monC04q: sends acknowledged before the first stop request are handled; nothing "
             "submitted after an accepted stop returned is handled and its call errs; graceful end by quiescence) "
@@ -86,7 +86,7 @@ PROPS = {
     "C17": {
         "modules": ["Hannibal.Props.C17", "Hannibal.Props.C17Current"],
         "theorems": ["Hannibal.C17_holds", "Hannibal.C17_current"],
-        "cases": {"quick": {"C17": 1500}, "thorough": {"C17": 20000, "C04": 3000}},
+        "cases": {"quick": {"C17": 1500}, "thorough": {"C17": 20000, "x:C17": 320, "C04": 3000}},
         "assumptions": COMMON_ASSUMPTIONS + [
             "when None is allowed and that a join with the slot resolves only after termination (monC17n) are judged on real traces only",
             "a second join that finds the join slot already taken returns None at once (interpretation of 'later joins yield None')",
@@ -96,7 +96,7 @@ PROPS = {
     "C11": {
         "modules": ["Hannibal.Props.C11", "Hannibal.Props.C11Current"],
         "theorems": ["Hannibal.C11_holds", "Hannibal.C11_current"],
-        "cases": {"quick": {"C11": 1500}, "thorough": {"C11": 20000, "C06": 3000}},
+        "cases": {"quick": {"C11": 1500}, "thorough": {"C11": 20000, "x:C11": 320, "C06": 3000}},
         "assumptions": COMMON_ASSUMPTIONS + [
             "prompt-schedule clauses (monC11p: needs-less-than-t completes, needs-more is abandoned exactly at t, "
             "the caller of an abandoned invocation gets an error) are judged on real traces only",
@@ -107,7 +107,7 @@ PROPS = {
     "C01": {
         "modules": ["Hannibal.Props.C01", "Hannibal.Props.C01Current"],
         "theorems": ["Hannibal.C01_holds", "Hannibal.C01_current", "Hannibal.monC01_step"],
-        "cases": {"quick": {"C01": 1500}, "thorough": {"C01": 20000, "C12": 3000, "C07": 3000}},
+        "cases": {"quick": {"C01": 1500}, "thorough": {"C01": 20000, "x:C01": 320, "C12": 3000, "C07": 3000}},
         "assumptions": COMMON_ASSUMPTIONS + [
             "well-formedness hypothesis wf01 (message numbers and operation ids of the trace are fresh) - checked "
             "on every real trace by monWf01 in the same run; without it the model has runs the monitor rejects "
@@ -120,7 +120,7 @@ PROPS = {
         "modules": ["Hannibal.Props.C02", "Hannibal.Props.C02Current", "Hannibal.Props.C02Guarded"],
         "theorems": ["Hannibal.C02_holds", "Hannibal.C02_current", "Hannibal.C02_split", "Hannibal.C02t_holds",
                      "Hannibal.C02orig_holds", "Hannibal.C02orig_current", "Hannibal.C02g_holds"],
-        "cases": {"quick": {"C02": 1500}, "thorough": {"C02": 20000, "C06": 3000, "C04": 3000}},
+        "cases": {"quick": {"C02": 1500}, "thorough": {"C02": 20000, "x:C02": 320, "C06": 3000, "C04": 3000}},
         "assumptions": COMMON_ASSUMPTIONS + [
             "operation ids of the trace are fresh (opIdsFresh, checked on every real trace by monC02wf)",
             "'an await begun after a graceful termination returns Ok' (monC02t) is false of unguarded runs (the model "
@@ -136,7 +136,7 @@ PROPS = {
         "theorems": ["Hannibal.C06_holds", "Hannibal.C06_current", "Hannibal.wellWired06_current", "Hannibal.monC06_split",
                      "Hannibal.C06s_holds", "Hannibal.C06s_current", "Hannibal.C06q_holds", "Hannibal.C06q_current",
                      "Hannibal.C06r_holds", "Hannibal.C06g_holds"],
-        "cases": {"quick": {"C06": 1500}, "thorough": {"C06": 20000, "C02": 3000, "C11": 3000}},
+        "cases": {"quick": {"C06": 1500}, "thorough": {"C06": 20000, "x:C06": 320, "C02": 3000, "C11": 3000}},
         "assumptions": COMMON_ASSUMPTIONS + [
             "single-actor part: 'children are released and stop gracefully', 'the registry treats it as not running' "
             "and 'other actors keep working' are the multi-actor clauses; they are carried by C16 (release at any "
@@ -154,7 +154,7 @@ PROPS = {
     "C05": {
         "modules": ["Hannibal.Props.C05", "Hannibal.Props.C05Current"],
         "theorems": ["Hannibal.C05_holds", "Hannibal.C05_current", "Hannibal.wellWired05_current"],
-        "cases": {"quick": {"C05": 1500}, "thorough": {"C05": 20000, "C15": 3000, "C13": 3000}},
+        "cases": {"quick": {"C05": 1500}, "thorough": {"C05": 20000, "x:C05": 320, "C15": 3000, "C13": 3000}},
         "assumptions": COMMON_ASSUMPTIONS + [
             "'drains, then terminates gracefully once the last strong handle is gone' (monC05q: by quiescence every "
             "acknowledged send was handled and the actor ended gracefully) is a liveness clause judged on real "
@@ -221,7 +221,7 @@ PROPS = {
     "C10": {
         "modules": ["Hannibal.Props.C10", "Hannibal.Props.C10Current"],
         "theorems": ["Hannibal.C10_holds", "Hannibal.C10_current"],
-        "cases": {"quick": {"C10": 1500}, "thorough": {"C10": 20000, "C07": 3000}},
+        "cases": {"quick": {"C10": 1500}, "thorough": {"C10": 20000, "x:C10": 320, "C07": 3000}},
         "assumptions": COMMON_ASSUMPTIONS + [
             "tick/wake-up correspondence and 'all timer tasks ended by quiescence, none leaked' (monC10q) are judged "
             "on real traces only (executor task census)",
@@ -235,7 +235,7 @@ PROPS = {
         "modules": ["Hannibal.Props.C12"],
         "theorems": ["Hannibal.C12_holds", "Hannibal.C12_current", "Hannibal.C12_state",
                      "Hannibal.wellWired12_current"],
-        "cases": {"quick": {"C12": 1500}, "thorough": {"C12": 20000}},
+        "cases": {"quick": {"C12": 1500}, "thorough": {"C12": 20000, "x:C12": 320}},
         "assumptions": [
             "atomicity: everything a task does inside one poll is atomic w.r.t. other tasks (single-thread executor)",
             "futures-channel mpsc semantics as read from 0.3.31 (do_send_b / next_message / Receiver::drop)",
